@@ -75,6 +75,14 @@ def _formula(rel, fname, ref_name, pred_name):
             raise Refuse("np.sum of " + t)
         return (m[t], "Z")
 
+    def count_nonzero(args, kw=None):
+        # equals np.sum only for BOOLEAN arrays (the results of logical_and / logical_or), not for the label arrays themselves
+        (t, ty), = args
+        m = {"AND": "ni", "OR": "nu"}
+        if ty != "arr" or t not in m:
+            raise Refuse("np.count_nonzero of " + t)
+        return (m[t], "Z")
+
     def logical(kind):
         def g(args, kw=None):
             if sorted(t for t, _ in args) != ["PRED", "REF"]:
@@ -89,7 +97,7 @@ def _formula(rel, fname, ref_name, pred_name):
         return (f"(inject_Z {t})", "Q")
 
     tr = Tr({ref_name: ("REF", "arr"), pred_name: ("PRED", "arr")},
-            {"np.sum": np_sum, "np.logical_and": logical("AND"), "np.logical_or": logical("OR"), "float": to_float})
+            {"np.sum": np_sum, "np.count_nonzero": count_nonzero, "np.logical_and": logical("AND"), "np.logical_or": logical("OR"), "float": to_float})
 
     def ret(e):
         t, ty = tr.expr(e)
